@@ -163,13 +163,37 @@ func (s ClientRecoveryStore) GetStore(prefix []byte) (storetypes.KVStore, bool) 
 
 // closedIterator returns an iterator that is always closed, used when Iterator() or ReverseIterator() is called
 // with an invalid prefix or start/end key.
-func (s ClientRecoveryStore) closedIterator() storetypes.Iterator {
-	// Create a dummy iterator that is always closed right away.
-	it := s.subjectStore.Iterator([]byte{0}, []byte{1})
-	it.Close()
-
-	return it
+func (ClientRecoveryStore) closedIterator() storetypes.Iterator {
+	// NOTE: an iterator obtained from the subject store cannot be used here: not every store
+	// implementation reports a closed iterator as invalid (e.g. cachekv keeps yielding its entry).
+	return emptyIterator{}
 }
+
+// emptyIterator is an iterator over no entries. It is never valid.
+type emptyIterator struct{}
+
+var _ storetypes.Iterator = emptyIterator{}
+
+// Domain implements storetypes.Iterator.
+func (emptyIterator) Domain() ([]byte, []byte) { return nil, nil }
+
+// Valid implements storetypes.Iterator. It always returns false.
+func (emptyIterator) Valid() bool { return false }
+
+// Next implements storetypes.Iterator.
+func (emptyIterator) Next() { panic("iterator is invalid") }
+
+// Key implements storetypes.Iterator.
+func (emptyIterator) Key() []byte { panic("iterator is invalid") }
+
+// Value implements storetypes.Iterator.
+func (emptyIterator) Value() []byte { panic("iterator is invalid") }
+
+// Error implements storetypes.Iterator.
+func (emptyIterator) Error() error { return nil }
+
+// Close implements storetypes.Iterator.
+func (emptyIterator) Close() error { return nil }
 
 // SplitPrefix splits the key into the prefix and the key itself, if the key is prefixed with either "subject/" or "substitute/".
 // If the key is not prefixed with either "subject/" or "substitute/", the prefix is nil.
